@@ -168,7 +168,9 @@ CHECKS["C17"] = hist_check("C17",
 SCHED_ASSUME = [
     "interleavings are sequentially consistent at the granularity of mimalloc's atomic operations (plus spurious weak-CAS failures); weaker hardware orderings and races on plain fields are outside what the scheduler produces",
     "virtual threads are real pthreads run one at a time; every virtual thread ends with mi_thread_done() while scheduled (what the pthread-key destructor calls)",
-    "programs have 2-3 threads and at most ~60 operations; single preemptions are enumerated densely up to a cap per program and strided beyond, multi-preemption schedules are sampled",
+    "programs have 2-3 threads and at most ~60 operations; single preemptions are enumerated densely up to a cap per program and strided beyond, multi-preemption schedules are sampled; "
+    "two fifths of the sampled schedules are address-directed (rules 'thread T about to make its k-th access to location X -> run U', mostly the ABA pattern on a location that three threads "
+    "access) and some let allocator yields return without progress of the other threads",
     "a step or spin limit hit is recorded as inconclusive (skipped), never as a violation",
 ]
 def sched_check(mode, rule, q, t, budget=None):
